@@ -16,7 +16,10 @@ META = {
     "bounds": "tables of N <= 3 entries differing inside a window of W = 2 "
               "low bits or N = 2 with W = 3 (quick); N <= 3 with W = 3 and "
               "N = 4 with W = 2 (thorough); 5 entries for default-route "
-              "removal alone; all entries share a symbolic 32-bit prefix P "
+              "removal alone; thorough also: 5 entries in a 4-bit window, "
+              "three fully specified same-route entries followed by two "
+              "entries with other routes and concrete masks from two chosen "
+              "pairs (keys symbolic); all entries share a symbolic 32-bit prefix P "
               "(optionally with one common X bit outside the window) and "
               "differ only inside the window where both key and mask are fully "
               "symbolic; routes per entry from a fixed pattern over three "
@@ -114,7 +117,8 @@ def check_equivalent(ctx, orig, new, pk, label):
     ctx.prove(ok, label, ("pk", pk, "orig", ro, so, "new", mn, rn, sn))
 
 
-def make_table(ctx, n, W, routes, srcs, discipline, common_x):
+def make_table(ctx, n, W, routes, srcs, discipline, common_x, exact=0,
+               masks=None):
     from rig.routing_table import RoutingTableEntry
     from rig.routing_table.utils import intersect
     R = _menus()
@@ -125,10 +129,18 @@ def make_table(ctx, n, W, routes, srcs, discipline, common_x):
     table = []
     for i in range(n):
         kw = ctx.bv("k", W)
-        mw = ctx.bv("m", W)
+        if masks is not None:
+            # window mask chosen by the unit, key symbolic under it
+            mw = const(masks[i])
+            ctx.assume((kw & ~mw & win) == 0)
+        elif i < exact:
+            # a fully specified entry (no X inside the window)
+            mw = const(win)
+        else:
+            mw = ctx.bv("m", W)
+            ctx.assume((kw & ~mw & win) == 0)
         key = (P & (hi & ~cx)) | kw
         mask = const(hi & ~cx) | mw
-        ctx.assume((kw & ~mw & win) == 0)
         route = R[routes[i]]
         table.append(RoutingTableEntry(route, key, mask,
                                        _sources(srcs[i], route)))
@@ -155,14 +167,16 @@ def _target(ctx, n, mode):
     return ctx.int("target", 0, n + 1)
 
 
-def h_min(ctx, which, n, W, routes, srcs, discipline, target, common_x=False):
+def h_min(ctx, which, n, W, routes, srcs, discipline, target, common_x=False,
+          exact=0, masks=None):
     from rig.routing_table import MinimisationFailedError
     from rig.routing_table import remove_default_routes as rdr
     from rig.routing_table import ordered_covering as oc
     from rig.routing_table import minimise as mm
     import rig.routing_table as rt
 
-    table = make_table(ctx, n, W, routes, srcs, discipline, common_x)
+    table = make_table(ctx, n, W, routes, srcs, discipline, common_x, exact,
+                       masks)
     orig = list(table)
     snapshot = [(e.route, e.key, e.mask, set(e.sources)) for e in table]
     t = _target(ctx, n, target)
@@ -260,13 +274,18 @@ def units(tier, seed):
     us = [Unit("empty table", h_empty)]
 
     def add(which, n, W, routes, srcs, disc, target, split=0, cx=False,
-            wit=("returned",)):
-        name = "%s n=%d W=%d routes=%s srcs=%s %s target=%s%s" % (
-            which, n, W, routes, srcs, disc, target, " cx" if cx else "")
+            wit=("returned",), exact=0, masks=None):
+        name = "%s n=%d W=%d routes=%s srcs=%s %s target=%s%s%s%s" % (
+            which, n, W, routes, srcs, disc, target, " cx" if cx else "",
+            " exact=%d" % exact if exact else "",
+            " masks=" + ",".join(format(m, "0%db" % W) for m in masks)
+            if masks else "")
         us.append(Unit(name, h_min, dict(
             which=which, n=n, W=W, routes=routes, srcs=srcs,
-            discipline=disc, target=target, common_x=cx),
-            split=split, witnesses=wit, path_timeout_s=120))
+            discipline=disc, target=target, common_x=cx, exact=exact,
+            masks=masks),
+            split=split, witnesses=wit, path_timeout_s=300,
+            timeout_ms=300000))
 
     # default-route removal alone: any table at all
     add("rdr", 2, 3, "AB", "dd", "any", "sym")
@@ -305,4 +324,10 @@ def units(tier, seed):
             add("oc", 4, 2, "ABAB", "umdu", disc, "sym", split=7)
             add("chain", 4, 2, "AABA", "dduu", disc, "sym", split=7)
         add("tables", 3, 3, "AAB", "dud", "sorted", "sym", split=6)
+        # five entries: three fully specified same-route entries followed
+        # by two arbitrary ones with other routes (the shape needed for an
+        # up-check that shrinks a merge which must then be down-checked again)
+        for m4, m5 in ((0b1100, 0b1001), (0b1010, 0b0011)):
+            add("oc_raw", 5, 4, "AAABC", "uuuuu", "sorted", "none",
+                split=9, masks=(15, 15, 15, m4, m5))
     return us
